@@ -17,7 +17,14 @@ RULE = ("newton.scalar / newton.sys / newton.sysjac cases, f64 and Complex<f64>:
         "basin, tol 1e-12..1e-4, delta 1e-8 / 1e-6 / 2^-k, iteration limits 0..50, defaults of Newton::new; (b) root-free, "
         "singular-derivative and non-square functions for the termination half; (c) search-only (no model term) builtin exp/trig "
         "equations and non-differentiable functions (|x|, sqrt|x|, cbrt, step, kinked systems). User functions are ASTs shared with "
-        "the Gallina model. Compared with the float model: parameters() before/after, Ok/Err, value, number of closure calls, the call "
+        "the Gallina model. (d) special structure (specB): systems whose Jacobian has an exact sparsity pattern (diagonal = decoupled, "
+        "lower / upper triangular, tridiagonal, full) with the equations reordered by a permutation (row exchange in the first pass, exact "
+        "zeros on the diagonal), guesses exactly at the root or with some components exactly at the root, complex systems with purely real "
+        "data; scalar problems on exactly representable data (slopes +-1, +-2, +-1/2, roots 0 / +-1, guesses 0 / at the root / at distance "
+        "tol), complex problems living on one axis (roots +-i sqrt k approached along the imaginary axis, real problems posed in Complex, "
+        "coefficients +-1 / +-i); (e) setter histories (kinds newton.hscalar / hsys / hsysjac): tolerance / delta / iterations / guess in "
+        "every one of the 24 orders, overridden earlier settings, fields never set, solves in between -- judged against the effective "
+        "configuration. Compared with the float model: parameters() before/after, Ok/Err, value, number of closure calls, the call "
         "points pass by pass, result and count of a second call. distinct = distinct executor line; non-trivial = at least one pass ran")
 TRUSTED = ["Coq 8.16.1 kernel + vm_compute (primitive floats)", "Rust executor /verif/harness (k_newton.rs, fnast.rs)",
            "python driver (generators, AST printers fnlib.py, independent Newton-step oracle, mpmath root refinement, comparators)",
@@ -41,7 +48,9 @@ MANIFEST = dict(
           "passes (_partial). The float instance of the same definitions is run against "
           "the implementation (Ok/Err, value, call counts, call points, second call; bit-compared) on shared-AST functions, f64 and "
           "Complex; an independent oracle (known roots, stopping-test replay, last-iterate recomputation, call bounds, parameters "
-          "before/after) searches for a failing input, including root-free and non-differentiable functions."),
+          "before/after, every recorded iterate of a known-root family is the Newton update of its predecessor, a point reported as a "
+          "root is finite) searches for a failing input, including root-free and non-differentiable functions, structured Jacobians "
+          "(sparsity patterns, row-permuted dominant systems), axis-aligned complex problems and setter histories in every order."),
     note=("Convergence over R is proved for: affine scalar functions and affine systems (exact root in one pass, at Qc, R and C); x^2 - c (newton_sqrt, "
           "newton_sqrt_converges); every C^1 scalar function with a Lipschitz derivative inside its basin (newton_basin_no_panic / _contraction / _ok / _pass_count, "
           "newton_quadratic_step, newton_ok_near_root_general), convex monotone functions from any start above the root (newton_monotone*), the same for 1x1 systems "
@@ -62,23 +71,49 @@ def tok_opt_f(x):
 def cfg_term(tol, delta, iters, guess_term):
     return "(cfg_f %s %s %s %s)" % (opt(tol, coq_float), opt(delta, coq_float), opt(iters, lambda n: "%d" % n), guess_term)
 
-def mk_scalar(elt, tol, delta, iters, guess, fn, meta, family, builtin=None):
-    """fn: AST, or None with builtin = '@name:..' (search-only)"""
+def hist_effective(guess0, ops):
+    """the configuration a setter history leaves behind: the last setter of each field wins, None = default of Newton::new"""
+    tol = delta = iters = None; guess = guess0
+    for op, v in ops:
+        if op == 't': tol = v
+        elif op == 'd': delta = v
+        elif op == 'i': iters = v
+        elif op == 'g': guess = v
+    return tol, delta, iters, guess
+
+def hist_tok(ops, tokg):
+    out = [str(len(ops))]
+    for op, v in ops:
+        out.append(op)
+        out.append(tok_scalar('f64', v) if op in 'td' else (str(v) if op == 'i' else (tokg(v) if op == 'g' else '-')))
+    return " ".join(out)
+
+def mk_scalar(elt, tol, delta, iters, guess, fn, meta, family, builtin=None, hist=None):
+    """fn: AST, or None with builtin = '@name:..' (search-only); hist = (guess0, ops): the object is built by Newton::new(guess0)
+    and configured by the setter history `ops` (executor kind newton.hscalar); tol/delta/iters/guess are then the EFFECTIVE values"""
     ftok = builtin if builtin else F.tok(elt, fn)
-    line = "newton.scalar %s %s %s %s %s" % (tok_opt_f(tol), tok_opt_f(delta), "-" if iters is None else str(iters), tok_scalar(elt, guess), ftok)
+    if hist:
+        tol, delta, iters, guess = hist_effective(hist[0], hist[1])
+        line = "newton.hscalar %s %s %s" % (tok_scalar(elt, hist[0]), hist_tok(hist[1], lambda v: tok_scalar(elt, v)), ftok)
+    else:
+        line = "newton.scalar %s %s %s %s %s" % (tok_opt_f(tol), tok_opt_f(delta), "-" if iters is None else str(iters), tok_scalar(elt, guess), ftok)
     term = None
     if not builtin:
         run = "run_scalar_f" if elt == 'f64' else "run_scalar_c"
         term = "%s %s %s" % (run, cfg_term(tol, delta, iters, coq_scalar(elt, guess)), F.coq_typed(elt, fn))
     meta = dict(meta)
-    meta.update({"kind": "scalar", "tol": tol, "delta": delta, "iters": iters, "guess": guess, "fn": fn, "builtin": builtin})
+    meta.update({"kind": "scalar", "tol": tol, "delta": delta, "iters": iters, "guess": guess, "fn": fn, "builtin": builtin, "hist": hist})
     return Case(elt, line, term, meta=meta, family=family, nontrivial=(iters is None or iters > 0), tol=1e-9)
 
-def mk_sys(elt, tol, delta, iters, guess, fns, meta, family, jac=None, builtin=None):
-    """jac: None (finite differences) or (r, c, [entry ASTs row-major])"""
+def mk_sys(elt, tol, delta, iters, guess, fns, meta, family, jac=None, builtin=None, hist=None):
+    """jac: None (finite differences) or (r, c, [entry ASTs row-major]); hist as in mk_scalar (kinds newton.hsys / newton.hsysjac)"""
     ftok = builtin if builtin else F.tok_fns(elt, fns)
     kind = "newton.sysjac" if jac else "newton.sys"
-    line = "%s %s %s %s %s %s" % (kind, tok_opt_f(tol), tok_opt_f(delta), "-" if iters is None else str(iters), tok_vec(elt, guess), ftok)
+    if hist:
+        tol, delta, iters, guess = hist_effective(hist[0], hist[1])
+        line = "%s %s %s %s" % (kind.replace("newton.", "newton.h"), tok_vec(elt, hist[0]), hist_tok(hist[1], lambda v: tok_vec(elt, v)), ftok)
+    else:
+        line = "%s %s %s %s %s %s" % (kind, tok_opt_f(tol), tok_opt_f(delta), "-" if iters is None else str(iters), tok_vec(elt, guess), ftok)
     if jac:
         line += " %d %d %s" % (jac[0], jac[1], F.tok_fns(elt, jac[2]))
     term = None
@@ -91,7 +126,7 @@ def mk_sys(elt, tol, delta, iters, guess, fns, meta, family, jac=None, builtin=N
             term = "run_sys_%s %s %s" % (sfx, c, F.coq_fns(elt, fns))
     meta = dict(meta)
     meta.update({"kind": "sysjac" if jac else "sys", "tol": tol, "delta": delta, "iters": iters, "guess": guess, "fns": fns,
-                 "jac": jac, "builtin": builtin})
+                 "jac": jac, "builtin": builtin, "hist": hist})
     return Case(elt, line, term, meta=meta, family=family, nontrivial=(iters is None or iters > 0), tol=1e-9)
 
 # ---------------------------------------------------------------- builtins (mirror of harness/src/k_newton.rs)
@@ -416,6 +451,220 @@ def gen_sys_builtin(rng, N):
                             "sys-builtin-" + fam, builtin=btok(fam, c if fam != "noroot" else ())))
     return cases
 
+# ---------------------------------------------------------------- specB: structured families (special STRUCTURE, not special values only)
+PERMS4 = [(a, b, c, d) for a in "tdig" for b in "tdig" for c in "tdig" for d in "tdig" if len({a, b, c, d}) == 4]
+
+def struct_system(rng, elt, n, pattern, perm, axis=None, nonlin=True):
+    """a diagonally dominant system whose Jacobian has EXACTLY the sparsity `pattern` ('diag' = decoupled, 'lower', 'upper',
+    'tridiag', 'full'), the equations then reordered by `perm` (equation i of the result is equation perm[i] of the dominant
+    system: the Jacobian is a row permutation of a dominant matrix, so the step solver must exchange rows in the FIRST pass and
+    meets exact zeros on the diagonal).  axis = 'real' (elt cplx): every datum has imaginary part exactly 0.
+    Returns (fns, r, jac entries); f(r) evaluates to exactly 0 in binary64 (root planted by subtracting the rounded value)."""
+    if elt == 'cplx' and axis == 'real': val = lambda lo, hi: complex(lo + (hi - lo) * rng.unit(), 0.0)
+    elif elt == 'cplx': val = lambda lo, hi: cval(rng, lo, hi)
+    else: val = lambda lo, hi: lo + (hi - lo) * rng.unit()
+    L = lambda z: F.lit(elt, z)
+    allowed = {'diag': lambda i, j: False, 'lower': lambda i, j: j < i, 'upper': lambda i, j: j > i,
+               'tridiag': lambda i, j: abs(i - j) == 1, 'full': lambda i, j: True}[pattern]
+    r = [val(-1.5, 1.5) for _ in range(n)]
+    fns = []
+    for i in range(n):
+        d = 3.0 + 2 * rng.unit()
+        if rng.chance(1, 2): d = -d
+        e = F.mul(L(d), F.V(i))
+        for j in range(n):
+            if j != i and allowed(i, j):
+                e = F.add(e, F.mul(L(val(-0.4, 0.4)), F.V(j)))
+        if nonlin:
+            e = F.add(e, F.mul(L(val(-0.3, 0.3)), F.mul(F.V(i), F.V(i))))
+            js = [j for j in range(n) if j != i and allowed(i, j)]
+            if js and rng.chance(1, 2):
+                j = js[rng.below(len(js))]
+                e = F.add(e, F.mul(L(val(-0.2, 0.2)), F.mul(F.V(j), F.V(j))))
+        fns.append(e)
+    vals = F.evv(fns, r)
+    fns = [F.sub(e, L(v)) for e, v in zip(fns, vals)]
+    fns = [fns[perm[i]] for i in range(n)]
+    jac = [diff(fns[i], j, elt) for i in range(n) for j in range(n)]
+    return fns, r, jac
+
+def pick_perm(rng, n, which):
+    ident = list(range(n))
+    if n < 2 or which == "id": return ident
+    if which == "swap01": return [1, 0] + ident[2:]
+    if which == "swaplast": return ident[:-2] + [n - 1, n - 2]
+    if which == "reverse": return ident[::-1]
+    if which == "cyclic": return ident[1:] + [0]
+    return rng.shuffle(ident)
+
+def gen_struct_systems(rng, N):
+    """Jacobian sparsity patterns x row permutations x guess classes (near / exactly at the root / some components exactly at
+    the root) x element kind (f64, cplx, cplx with purely real data) x Jacobian variant"""
+    cases = []
+    # the full cross product pattern x (identity | permuted) x (finite differences | supplied Jacobian) x element class is walked
+    # in order (60 combinations: every one at least twice in a quick run); everything else is drawn
+    combos = [(p, pc, uj, ea) for p in ["diag", "lower", "upper", "tridiag", "full"] for pc in ("id", "perm") for uj in (False, True)
+              for ea in (('f64', None), ('cplx', None), ('cplx', 'real'))]
+    off = rng.below(len(combos))
+    for t in range(N):
+        pattern, pc, use_jac, (elt, axis) = combos[(t + off) % len(combos)]
+        which = "id" if pc == "id" else ["swap01", "reverse", "cyclic", "swaplast", "random"][rng.below(5)]
+        n = rng.range(2, 5)
+        if pattern in ("lower", "upper", "tridiag") and n < 3 and rng.chance(1, 2): n = 3
+        nonlin = not rng.chance(1, 5)
+        fns, r, jac = struct_system(rng, elt, n, pattern, pick_perm(rng, n, which), axis=axis, nonlin=nonlin)
+        tol, delta = pick_tol(rng), pick_delta(rng)
+        if axis == 'real': pert = lambda: complex(0.3 * (2 * rng.unit() - 1), 0.0)
+        elif elt == 'cplx': pert = lambda: 0.3 * cval(rng, -1, 1)
+        else: pert = lambda: 0.3 * (2 * rng.unit() - 1)
+        gmode = ["near", "near", "near", "at-root", "partial"][rng.below(5)]
+        if gmode == "partial" and pattern != "diag": gmode = "near"
+        if gmode == "at-root": guess = list(r)
+        elif gmode == "partial":
+            # decoupled equations: the components listed in `keep` start exactly at their root (residual exactly 0 there); the
+            # largest residual sits in the first / last / a middle component
+            move = [rng.below(n)] if rng.chance(1, 2) else [0 if rng.chance(1, 2) else n - 1]
+            guess = [r[k] + pert() if k in move else r[k] for k in range(n)]
+        else: guess = [x + pert() for x in r]
+        need = 9 if nonlin else 4
+        iters = pick_iters(rng, need)
+        if iters is not None and iters > 12 and n >= 4: iters = 12
+        fam = "struct-sys%s-%s%s-%s-%s-%s" % ("jac" if use_jac else "", elt, "-real" if axis else "", pattern, "perm" if which != "id" else "id", gmode)
+        cases.append(mk_sys(elt, tol, delta, iters, guess, fns, {"root0": r, "expect_ok": True, "need": need}, fam,
+                            jac=(n, n, jac) if use_jac else None))
+    return cases
+
+def gen_special_scalar(rng, N):
+    """exactly representable special data: slopes +-1, +-2, +-1/2, roots 0 / +-1, guesses 0 / +-1 / exactly at the root / at
+    distance tol from it; complex problems that live on one axis (purely real data in Complex, roots +-i approached along the
+    imaginary axis, axis-aligned coefficients +-1, +-i)"""
+    cases = []
+    x = F.V(0)
+    for t in range(N):
+        fam = ["f64-affine", "f64-sqrt", "f64-recip", "cplx-imag-axis", "cplx-real-axis", "cplx-axis-affine"][t % 6]
+        tol, delta = pick_tol(rng), pick_delta(rng)
+        tol_e = 1e-8 if tol is None else tol
+        if fam == "f64-affine":
+            elt = 'f64'; L = lambda v: F.lit('f64', v)
+            a = [1.0, -1.0, 2.0, -2.0, 0.5, -0.5][rng.below(6)]
+            r = [0.0, 1.0, -1.0, 2.0, 0.5, -3.0][rng.below(6)]
+            form = rng.below(3)
+            if form == 0 and abs(a) == 1.0: fn = F.sub(x, L(r)) if a > 0 else F.sub(L(r), x)
+            elif form == 1: fn = F.mul(L(a), F.sub(x, L(r)))
+            else: fn = F.add(F.mul(L(a), x), L(-a * r))
+            guess = [0.0, r, 1.0, -1.0, r + 1.0, r - 1.0, r + tol_e, r - tol_e, r + 2 * tol_e][rng.below(9)]
+            roots = [r]; need = 3
+        elif fam == "f64-sqrt":
+            elt = 'f64'; L = lambda v: F.lit('f64', v)
+            c = [1.0, 4.0, 0.25, 9.0][rng.below(4)]
+            fn = F.sub(F.mul(x, x), L(c))
+            rt = math.sqrt(c)
+            guess = [1.0, 2.0, 0.5, 3.0, -1.0, -2.0, rt, -rt, rt + tol_e][rng.below(9)]
+            roots = [rt, -rt]; need = 16
+        elif fam == "f64-recip":
+            elt = 'f64'; L = lambda v: F.lit('f64', v)
+            c = [1.0, 2.0, 0.5, 4.0][rng.below(4)]
+            fn = F.sub(F.div(L(1.0), x), L(c))
+            guess = [1.0 / c, 0.75 / c, 1.25 / c, 1.0 / c + tol_e][rng.below(4)]
+            roots = [1.0 / c]; need = 12
+        elif fam == "cplx-imag-axis":
+            # roots +-i sqrt(k), guesses ON the imaginary axis: every iterate, derivative and step is purely imaginary
+            elt = 'cplx'; L = lambda v: F.lit('cplx', v)
+            k = [1.0, 1.0, 4.0, 0.25, 2.0][rng.below(5)]
+            fn = F.add(F.mul(x, x), L(k))
+            rt = math.sqrt(k)
+            sgn = 1 if rng.chance(1, 2) else -1
+            y = [rt, 1.25 * rt, 0.75 * rt, 1.5 * rt, rt * (0.7 + 0.8 * rng.unit()), rt * (0.7 + 0.8 * rng.unit())][rng.below(6)]
+            guess = complex(0.0, sgn * y)
+            roots = [complex(0, rt), complex(0, -rt)]; need = 10
+        elif fam == "cplx-real-axis":
+            # real problems posed in Complex: every imaginary part is exactly 0
+            elt = 'cplx'; L = lambda v: F.lit('cplx', v)
+            if rng.chance(1, 2):
+                c = [4.0, 2.0, 0.25, 1.0][rng.below(4)]
+                fn = F.sub(F.mul(x, x), L(c)); rt = math.sqrt(c)
+                sgn = 1 if rng.chance(1, 2) else -1
+                guess = complex(sgn * rt * [1.0, 1.25, 0.75, 0.7 + 0.8 * rng.unit()][rng.below(4)], 0.0)
+                roots = [complex(rt, 0), complex(-rt, 0)]
+            else:
+                r1 = dy(rng, -3, 3, 4); r2 = r1 + dy(rng, 1, 3, 4)
+                fn = F.mul(F.sub(x, L(r1)), F.sub(x, L(r2)))
+                guess = complex((r1 if rng.chance(1, 2) else r2) + 0.2 * (2 * rng.unit() - 1), 0.0)
+                roots = [complex(r1, 0), complex(r2, 0)]
+            need = 10
+        else:
+            elt = 'cplx'; L = lambda v: F.lit('cplx', v)
+            a = [1.0, -1.0, 1j, -1j, 2j, -0.5j, 2.0][rng.below(7)]
+            r = [0.0, 1.0, 1j, -1j, -1.0, 2j][rng.below(6)]
+            a = complex(a); r = complex(r)
+            fn = F.mul(L(a), F.sub(x, L(r))) if rng.chance(1, 2) else F.add(F.mul(L(a), x), L(-a * r))
+            guess = complex([0.0, r, 1.0, 1j, -1.0, -1j, r + 1, r + 1j, r + tol_e, r + 1j * tol_e][rng.below(10)])
+            roots = [r]; need = 3
+        iters = pick_iters(rng, need)
+        cases.append(mk_scalar(elt, tol, delta, iters, guess, fn, {"roots": roots, "expect_ok": True, "need": need}, "special-" + fam))
+    return cases
+
+def gen_histories(rng, N):
+    """setter histories: Newton::new(guess0) followed by tolerance / delta / iterations / guess in EVERY order (the 24 orders
+    rotate with the case index), earlier `decoy` settings of the same field that a later setter overrides, fields never set
+    (defaults), and solves in between.  The answer must be the one of a fresh object with the effective configuration."""
+    cases = []
+    x = F.V(0)
+    for t in range(N):
+        prob = t % 4
+        order = PERMS4[(t // 4 + 7 * (t % 4)) % 24]
+        tol = [1e-12, 1e-10, 1e-9, 1e-7, 1e-6, 1e-5, 1e-4][rng.below(7)]
+        delta = [1e-7, 1e-6, 2.0 ** -20, 2.0 ** -24, 2.0 ** -26][rng.below(5)]
+        if prob == 0:
+            elt = 'f64'; L = lambda v: F.lit('f64', v)
+            r1 = 6 * rng.unit() - 3; sep = 0.5 + 3 * rng.unit(); r2 = r1 + sep
+            fn = F.mul(F.sub(x, L(r1)), F.sub(x, L(r2)))
+            good = lambda: (r1 if rng.chance(1, 2) else r2) + (2 * rng.unit() - 1) * sep / 4
+            far = lambda: r2 + 20 + 10 * rng.unit()
+            extra = {"roots": [r1, r2], "expect_ok": True, "need": 9}; need = 9
+        elif prob == 1:
+            elt = 'cplx'; L = lambda v: F.lit('cplx', v)
+            import cmath
+            c = cval(rng, -4, 4)
+            if abs(c) < 0.3: c += 1
+            fn = F.sub(F.mul(x, x), L(c)); rt = cmath.sqrt(c)
+            good = lambda: rt * (1 + 0.3 * cval(rng, -1, 1))
+            far = lambda: rt * 30 + cval(rng, -1, 1)
+            extra = {"roots": [rt, -rt], "expect_ok": True, "need": 9}; need = 9
+        else:
+            elt = 'f64' if t % 8 < 6 else 'cplx'
+            n = rng.range(1, 3)
+            fns, r, jac = struct_system(rng, elt, n, "full", list(range(n)))
+            pert = (lambda: 0.3 * cval(rng, -1, 1)) if elt == 'cplx' else (lambda: 0.3 * (2 * rng.unit() - 1))
+            good = lambda: [v + pert() for v in r]
+            far = lambda: [v + 25 + pert() for v in r]
+            extra = {"root0": r, "expect_ok": True, "need": 9}; need = 9
+        iters = pick_iters(rng, need)
+        if iters is None: iters = 20 + rng.range(1, 9)          # an explicit value different from the default
+        final = {'t': tol, 'd': delta, 'i': iters, 'g': good()}
+        ops = [(o, final[o]) for o in order]
+        # a field never set keeps the default of Newton::new (guess: the constructor argument)
+        dropped = None
+        if rng.chance(1, 3):
+            dropped = "tdig"[rng.below(4)]
+            ops = [op for op in ops if op[0] != dropped]
+        guess0 = final['g'] if dropped == 'g' else (far() if rng.chance(1, 2) else good())
+        # decoys: an earlier setting of the same field, overridden later (or, for a dropped field, left in force)
+        decoy = {'t': lambda: [1e-3, 1e-2, 1e-11][rng.below(3)], 'd': lambda: [2.0 ** -12, 1e-5, 2.0 ** -30][rng.below(3)],
+                 'i': lambda: [0, 1, 40, 50][rng.below(4)], 'g': lambda: far() if rng.chance(1, 2) else good()}
+        for o in "tdig":
+            if o != dropped and rng.chance(1, 3):
+                pos = [k for k, op in enumerate(ops) if op[0] == o][0]
+                ops.insert(rng.below(pos + 1), (o, decoy[o]()))
+        if rng.chance(1, 3):
+            ops.insert(rng.below(len(ops) + 1), ('s', None))
+        fam = "history-%s" % ["scalar-f64", "scalar-cplx", "sys", "sysjac"][prob]
+        if prob <= 1:
+            cases.append(mk_scalar(elt, None, None, None, None, fn, extra, fam, hist=(guess0, ops)))
+        else:
+            cases.append(mk_sys(elt, None, None, None, None, fns, extra, fam, jac=(n, n, jac) if prob == 3 else None, hist=(guess0, ops)))
+    return cases
+
 def generate(rng, tier):
     q = (tier == "quick")
     cases = []
@@ -426,6 +675,11 @@ def generate(rng, tier):
     cases += gen_sys_termination(rng.fork("syst"), 48 if q else 180)
     cases += gen_scalar_builtin(rng.fork("sb"), 220 if q else 2200)
     cases += gen_sys_builtin(rng.fork("sysb"), 80 if q else 800)
+    # specB: special structure -- Jacobian sparsity patterns / row permutations / guesses at the root, exactly representable and
+    # axis-aligned scalar problems, setter histories in every order
+    cases += gen_struct_systems(rng.fork("struct"), 120 if q else 600)
+    cases += gen_special_scalar(rng.fork("special"), 72 if q else 480)
+    cases += gen_histories(rng.fork("hist"), 96 if q else 480)
     # spread heavy and light cases over the model shards
     withm = [c for c in cases if c.term is not None]
     without = [c for c in cases if c.term is None]
@@ -438,14 +692,19 @@ def case_from_json(j):
     fl = lambda v: None if v is None else (float.fromhex(v) if isinstance(v, str) else float(v))
     extra = {"roots": [conv(r) for r in m["roots"]] if m.get("roots") else None, "expect_ok": bool(m.get("expect_ok")), "need": m.get("need", 20),
              "root0": [conv(r) for r in m["root0"]] if m.get("root0") else None}
+    hist = None
+    if m.get("hist"):
+        # {"guess0": <value>, "ops": [["t", <hex float>], ["d", ..], ["i", <int>], ["g", <value>], ["s", null]]}
+        gv = (lambda v: conv(v)) if m["kind"] == "scalar" else (lambda v: [conv(t) for t in v])
+        hist = (gv(m["hist"]["guess0"]), [(o, fl(v) if o in "td" else (int(v) if o == "i" else (gv(v) if o == "g" else None))) for o, v in m["hist"]["ops"]])
     if m["kind"] == "scalar":
         fn = F.from_json(m["fn"]) if m.get("fn") else None
-        return mk_scalar(elt, fl(m["tol"]), fl(m["delta"]), m["iters"], conv(m["guess"]), fn, extra, "corpus", builtin=m.get("builtin"))
+        return mk_scalar(elt, fl(m.get("tol")), fl(m.get("delta")), m.get("iters"), None if hist else conv(m["guess"]), fn, extra, "corpus", builtin=m.get("builtin"), hist=hist)
     fns = [F.from_json(e) for e in m["fns"]] if m.get("fns") else None
     jac = None
     if m.get("jac"):
         jac = (m["jac"][0], m["jac"][1], [F.from_json(e) for e in m["jac"][2]])
-    return mk_sys(elt, fl(m["tol"]), fl(m["delta"]), m["iters"], [conv(v) for v in m["guess"]], fns, extra, "corpus", jac=jac, builtin=m.get("builtin"))
+    return mk_sys(elt, fl(m.get("tol")), fl(m.get("delta")), m.get("iters"), None if hist else [conv(v) for v in m["guess"]], fns, extra, "corpus", jac=jac, builtin=m.get("builtin"), hist=hist)
 
 # ---------------------------------------------------------------- oracle
 def beq(a, b):
@@ -649,12 +908,31 @@ def oracle(case, items):
             if nrm(dx) < 1e6 * (1 + nrm(c)) and nrm(vsub(x1, ref)) > rel * scale + 1e-300:
                 return ("%s(%r) is not the Newton update %r of the last iterate %r: the value returned is not the last iterate"
                         % ("Ok" if ok1 else "Err", x1, ref, c))
+    # ---- specB: in the known-root families EVERY recorded iterate is the Newton update of its predecessor (the clause above looks at
+    # the last pass only, where the step is tiny and a wrong step solver hides inside the tolerance)
+    if meta.get("expect_ok") and (meta.get("roots") or meta.get("root0") is not None):
+        for k in range(K - 1):
+            c, nxt = seq[k], seq[k + 1]
+            if c is None or nxt is None or not allfinite(c) or not allfinite(nxt): continue
+            try:
+                ref, dx, ampl = newton_step(c)
+            except (OverflowError, ValueError, ZeroDivisionError):
+                continue
+            if ref is None or not allfinite(ref): continue
+            scale = nrm(c) + nrm(dx)
+            rel = (1e-9 + 1e-14 * ampl) if kind == "scalar" else 1e-6
+            if nrm(dx) < 1e6 * (1 + nrm(c)) and nrm(vsub(nxt, ref)) > rel * scale + 1e-300:
+                return ("pass %d of %d: the iterate %r is not the Newton update %r of its predecessor %r"
+                        % (k + 1, K, nxt, ref, c))
     # ---- success means a root
     if ok1:
         roots = meta.get("roots")
         if roots is None and kind == "scalar" and meta.get("expect_ok") and not meta.get("builtin"):
             roots = [r[0] for r in [refine_root([meta["fn"]], [x1], elt)]]
             roots = [complex(roots[0]) if elt == 'cplx' else float(roots[0])]
+        # specB: a point that is not finite is not a root (NaN compares false with every bound below; the refinement cannot start there)
+        if (roots or meta.get("root0") is not None) and not allfinite(x1):
+            return "Ok(%r): the point reported as a root of a function with known simple roots is not finite" % (x1,)
         if kind == "scalar" and roots:
             d = min(abs(x1 - r) for r in roots)
             bound = 100 * tol + 16 * ulp(abs(x1))
